@@ -159,15 +159,15 @@ func (m *Metadata) MarshalBinary() ([]byte, error) {
 func (m *Metadata) UnmarshalBinary(data []byte) error {
 	var read int64
 	for read < int64(len(data)) {
-		data = data[read:]
-		v, _, err := varint.FromUvarint(data)
+		rest := data[read:]
+		v, _, err := varint.FromUvarint(rest)
 		if err != nil {
 			return err
 		}
 		id := multicodec.Code(v)
 		t := m.mc.newTransport(id)
 
-		buf := bytes.NewBuffer(data)
+		buf := bytes.NewBuffer(rest)
 		tLen, err := t.ReadFrom(buf)
 		if err != nil {
 			return err
